@@ -3,7 +3,7 @@
    Metadata lives in a heap of identified mutable objects (ColumnMetadata, destination sets,
    column dicts, TableMetadata); a frame owns the objects reachable from its info record. *)
 From PdV.Model Require Import Heap.
-From PdV Require Import HeapProofs.
+From PdV Require Import HeapProofs HeapTyped.
 
 (* the metadata of a pandas result consists of NEW objects only, and building it leaves every
    existing object untouched *)
@@ -87,3 +87,21 @@ Theorem C05_no_source :
   forall h out method strict, combine h [] out method strict = (h, None).
 Proof. exact combine_no_source. Qed.
 Print Assumptions C05_no_source.
+
+(* The metadata of a pandas result is well-formed whatever the sources looked like: its TableMetadata
+   object exists and points at an existing destination set, its columns dict exists and every entry
+   points at a ColumnMetadata object - so none of the defaults of the model's readers (dests_of, dict_of,
+   cm_of) is taken when the result is observed or used as a source in turn. *)
+Theorem C05_result_typed :
+  forall h srcs out method strict h' r,
+    wf_heap h -> combine h srcs out method strict = (h', Some (inl r)) -> typed h' r.
+Proof. exact combine_typed. Qed.
+Print Assumptions C05_result_typed.
+
+(* ... and on a well-formed source the destinations the result starts from (C05_header) are the
+   contents of the source's own set object *)
+Theorem C05_source_destinations :
+  forall h i, typed h i ->
+    exists m l, meta_of h i = Some m /\ get h (tm_dests m) = Some (OSet l) /\ dests_of h i = l.
+Proof. exact dests_of_typed. Qed.
+Print Assumptions C05_source_destinations.
